@@ -1,4 +1,5 @@
 import RV.C11.Lemmas
+import RV.C11.N3Lemmas
 /-
   C11 — "Property paths denote the relation SPARQL defines, for every binding of the ends."
 
@@ -468,6 +469,78 @@ theorem neg_affected_answer (fw : List Term) (b : Term) (bs : List Term) :
     exact (negRelImpl_ne_of_inverse fw b bs).2 this.1
 
 example : evalPath [(0, freshPred [10, 11], 1)] (.neg [10] [11]) none none = [(0, 1)] := by decide
+
+/-! ### Round g — the syntax tie: `Path.n3()` text, read back as SPARQL and translated
+
+`n3` (N3.lean) is the writer of rdflib/paths.py, `readPath` a recursive-descent reader of SPARQL 1.1 grammar rules [88]–[96]
+producing the parser's tree, `translate` the model of `translatePath`; `reparse p = (readPath (n3 p)).map translate` is the
+path object a query gets when the user splices `p.n3()` into its text. -/
+
+/-- the text `n3()` writes for `p` is in SPARQL's grammar: no modifier on anything but a primary (`p*+`, `(^p)*` — which is
+    written `^p*`), no `^` on a `^` (`^^p`), no empty alternative; single-member sequences / alternatives are transparent -/
+def Path.n3Readable (p : Path) : Bool := lvl p != .bad
+
+/-- Splicing `p.n3()` into a query gives a path that denotes what `p` denotes. -/
+def Statement_path_n3_roundtrip : Prop :=
+  ∀ p : Path, ∃ q, reparse p = some q ∧ ∀ g : Graph, rel g q = rel g p
+
+mutual
+/-- dropping single-member sequences / alternatives and splicing parenthesised groups does not change the relation -/
+theorem norm_rel (g : Graph) : ∀ p : Path, rel g (norm p) = rel g p
+  | .iri p => by rw [norm]
+  | .neg fw bw => by rw [norm]
+  | .inv x => by rw [norm, rel, rel, norm_rel g x]
+  | .mul x m => by rw [norm, rel, rel, norm_rel g x]
+  | .seq a [] => by rw [norm, norm_rel g a, rel, relList, compList]
+  | .seq a (b :: bs) => by
+    rw [norm, rel_mkSeq, relList, norm_rel g a, norm_rel g b, normList_rel g bs, rel, relList]
+  | .alt [] => by rw [norm]
+  | .alt [a] => by rw [norm, norm_rel g a, rel, relList, relList, unionList_singleton]
+  | .alt (a :: b :: cs) => by
+    rw [norm, rel_mkAlt, relList, relList, norm_rel g a, norm_rel g b, normList_rel g cs, rel, relList, relList]
+theorem normList_rel (g : Graph) : ∀ ps : List Path, relList g (normList ps) = relList g ps
+  | [] => by rw [normList]
+  | p :: ps => by rw [normList, relList, relList, norm_rel g p, normList_rel g ps]
+end
+
+/-- For every path whose `n3()` text is in the grammar (any depth): the reader accepts the text with the fuel it is
+    given, `translatePath` rebuilds exactly `norm p` (the same tree up to single-member wrappers and the constructors'
+    splicing), and that path denotes the relation of `p`. -/
+theorem path_n3_roundtrip_partial :
+    ∀ p : Path, p.n3Readable = true → reparse p = some (norm p) ∧ ∀ g : Graph, rel g (norm p) = rel g p := by
+  intro p h
+  have hl : lvl p ≠ .bad := by simpa [Path.n3Readable] using h
+  obtain ⟨t, h1, h2⟩ := read_n3 p hl
+  exact ⟨by rw [reparse, h1, Option.map_some, h2], fun g => norm_rel g p⟩
+
+/-- The code falsifies the full statement: `MulPath(MulPath(p, '*'), '+').n3()` is `<p>*+`, which is not a SPARQL path. -/
+theorem path_n3_roundtrip_witness : ¬ Statement_path_n3_roundtrip := by
+  intro h
+  obtain ⟨q, hq, _⟩ := h (.mul (.mul (.iri 10) .zeroOrMore) .oneOrMore)
+  have : (reparse (.mul (.mul (.iri 10) .zeroOrMore) .oneOrMore)).isNone = true := by decide
+  rw [hq] at this
+  cases this
+
+/-- … and evaluating that query text yields exactly the pairs of the relation `p` denotes (all four bindings), as far as
+    `NegatedPath.eval` is right (C11-F5). -/
+theorem n3_query_same_partial :
+    ∀ (g : Graph) (p : Path), p.n3Readable = true → (norm p).noInvNeg = true → ∀ (s o : Option Term) (x y : Term),
+      (∃ q, reparse p = some q ∧ ((x, y) ∈ evalPath g q s o ↔
+        rel g p x y ∧ (∀ a, s = some a → x = a) ∧ (∀ b, o = some b → y = b) ∧
+          (s = none → o = none → x ∈ nodes g ∧ y ∈ nodes g))) := by
+  intro g p h hn s o x y
+  refine ⟨norm p, (path_n3_roundtrip_partial p h).1, ?_⟩
+  rw [← norm_rel g p]
+  exact path_correct_partial g (norm p) hn s o x y
+
+-- `(p/(q|^r))*` is written `( p / ( q | ^ r ) ) *`; `(^p)*` is written `^ p *` and read back as `^(p*)` (same relation);
+-- `^^p` and the empty alternative have no readable text
+example : n3 (.mul (.seq (.iri 10) [.alt [.iri 11, .inv (.iri 12)]]) .zeroOrMore) =
+    [.lp, .iri 10, .slash, .lp, .iri 11, .bar, .hat, .iri 12, .rp, .rp, .mod .zeroOrMore] := by decide
+example : Path.n3Readable (.mul (.seq (.iri 10) [.alt [.iri 11, .inv (.iri 12)]]) .zeroOrMore) = true := by decide
+example : (reparse (.mul (.inv (.iri 10)) .zeroOrMore)).isSome = true ∧
+    Path.n3Readable (.mul (.inv (.iri 10)) .zeroOrMore) = false := by decide
+example : (reparse (.inv (.inv (.iri 10)))).isNone = true ∧ (reparse (.seq (.iri 10) [.alt []])).isNone = true := by decide
 
 /-! ### Non-vacuity: cyclic graph (2-cycle, self-loop, 3-cycle), nested closures, all bindings -/
 
